@@ -2010,6 +2010,57 @@ def _sc_overbound(where, body, names, out, prefix, owner_extra):
     return ub[1].value, db[1].value
 
 
+# default values of the optional constructor / partialconstructor parameters (what a caller gets by leaving them out)
+SC_DEFAULT_KIND = {"delay": "T", "interp_mode": "mode", "spike_interp_mode": "mode", "interp_tol": "T",
+                   "current_overbound": "OT", "spike_overbound": "OB", "batch_size": "nat", "inplace": "B"}
+
+
+def _sc_default(where, name, node):
+    kind = SC_DEFAULT_KIND.get(name)
+    v = ast.literal_eval(node) if isinstance(node, (ast.Constant, ast.UnaryOp)) else TranslationError
+    if kind is None or v is TranslationError:
+        raise TranslationError(f"{where}: unsupported optional parameter {name} = {ast.unparse(node)}")
+
+    def num(x):
+        if isinstance(x, bool) or not isinstance(x, (int, float)) or float(x) != int(x):
+            raise TranslationError(f"{where}: unsupported default {name} = {x!r}")
+        return "(zero N)" if x == 0 else f"(ofZ N ({int(x)})%Z)"
+    if kind == "T":
+        return "(N : Num) : T N", num(v)
+    if kind == "OT":
+        return "(N : Num) : option (T N)", "None" if v is None else f"(Some {num(v)})"
+    if kind == "OB":
+        if v is not None and not isinstance(v, bool):
+            raise TranslationError(f"{where}: unsupported default {name} = {v!r}")
+        return ": option bool", "None" if v is None else f"(Some {'true' if v else 'false'})"
+    if kind == "B" and isinstance(v, bool):
+        return ": bool", "true" if v else "false"
+    if kind == "nat" and isinstance(v, int) and not isinstance(v, bool) and v >= 0:
+        return ": nat", str(v)
+    if kind == "mode" and v in ("previous", "nearest"):      # 0 = "previous", 1 = "nearest"
+        return ": nat", "0" if v == "previous" else "1"
+    raise TranslationError(f"{where}: unsupported default {name} = {v!r}")
+
+
+def _sc_defaults(cn, mm, out, man, path):
+    """Definition <Class>_default_<param> / <Class>_partial_default_<param> for every optional parameter"""
+    for meth, tag in (("__init__", "default"), ("partialconstructor", "partial_default")):
+        f = mm.get(meth)
+        if f is None:
+            raise TranslationError(f"{cn}.{meth}: method not found")
+        a = f.args
+        pairs = list(zip([x.arg for x in a.args][len(a.args) - len(a.defaults):], a.defaults)) + \
+            [(x.arg, d) for x, d in zip(a.kwonlyargs, a.kw_defaults) if d is not None]
+        out.append(f"(* {cn}.{meth}: default values of the optional parameters (mode: 0 = \"previous\", 1 = \"nearest\") *)")
+        for name, d in pairs:
+            ty, val = _sc_default(f"{cn}.{meth}", name, d)
+            pname = "interp_mode" if name == "spike_interp_mode" else name
+            out.append(f"Definition {cn}_{tag}_{pname} {ty} := {val}.")
+        out.append("")
+        if meth == "partialconstructor":
+            _sc_man(man, path, f"{cn}.partialconstructor (defaults)", f)
+
+
 def translate_synapse_classes(repo: str = REPO):
     out = ["(* GENERATED by tools/translate.py from inferno/neural/synapses/{current,expcurrent,mixins}.py -- do not edit *)",
            "From Coq Require Import ZArith Bool List.", "From Inferno Require Import Base.Num.", "Import ListNotations.", ""]
@@ -2117,6 +2168,9 @@ def translate_synapse_classes(repo: str = REPO):
             out.append(f"(* records reset (to the resting value False / 0.0) by clear *)\n"
                        f"Definition {cn}_clear_resets : list nat := [{'; '.join(map(str, resets))}].\n")
             _sc_man(man, path, f"{cn}.clear", f)
+            # ---------------- defaults of the optional constructor parameters
+            all_m = {n.name: n for n in cdefs[cn].body if isinstance(n, ast.FunctionDef)}
+            _sc_defaults(cn, all_m, out, man, path)
             # ---------------- the current getter
             if cn == "DeltaCurrent":
                 cl = [n for n in ast.walk(mm["__init__"]) if isinstance(n, ast.FunctionDef) and n.name == "spike_to_current"]
